@@ -4,7 +4,7 @@ the list of earlier attempts is rebuilt from /verif/seeded/<id>*/meta.json (firs
 sub-agent gets the property text and these one-paragraph descriptions, nothing else from /verif)."""
 import glob, json, re, sys
 k = int(sys.argv[1])
-words = {2: "One previous attempt", 3: "Two previous attempts", 4: "Three previous attempts", 5: "Four previous attempts", 6: "Five previous attempts"}
+words = {2: "One previous attempt", 3: "Two previous attempts", 4: "Three previous attempts", 5: "Four previous attempts", 6: "Five previous attempts", 7: "Six previous attempts", 8: "Seven previous attempts"}
 for i in range(1, 20):
     pid = f"C{i:02d}"
     base = open(f"/tmp/wt/{pid}.prompt4.txt").read()
@@ -22,6 +22,12 @@ for i in range(1, 20):
             "attributes and hand-written Serialize/Deserialize/PartialEq/Default impls, endianness and padding of integers, "
             "release-vs-debug arithmetic, helper functions that are public but not used by the main flows, and clauses of the "
             "property statement that none of the earlier attempts touched.\n")
+    if k >= 7:
+        hint += ("- Yet further places: state carried by an object across calls (builder / key pair / proof objects mutated in place), "
+                 "Clone / PartialEq / Hash impls that skip a field, conversions between the generic wrapper enums and the inner "
+                 "structs, feature-gated code paths (cfg(test), cfg(feature)), the order in which independent checks run when two "
+                 "of them fail, inputs that are valid but extreme in TWO dimensions at once, and helper functions whose contract "
+                 "differs subtly from how a second caller uses them.\n")
     if k >= 6:
         hint += ("- Further places: a wrong variable of the same type passed to a helper (two bounds, two moduli, two generator lists), "
                  "comparison operators at interval ends (< vs <=), sign handling of big integers (negative values, abs, % vs rem_euc), "
